@@ -12,6 +12,7 @@ import (
 	"net/http"
 	"net/http/httptest"
 	"net/url"
+	"reflect"
 	"runtime"
 	"time"
 
@@ -264,6 +265,24 @@ func decode(b []byte) (d decoded) {
 	return
 }
 
+// reused is decoded into again and again: decoding is a function of the bytes, whatever the Message held before.
+var reused message.Message
+
+func decodeReused(b []byte) (d decoded) {
+	defer func() {
+		if e := recover(); e != nil {
+			d.panic = fmt.Sprint(e)
+		}
+	}()
+	if err := reused.UnmarshalCBOR(bytes.NewReader(b)); err != nil {
+		d.err = err.Error()
+		reused = message.Message{Addrs: reused.Addrs} // keep the capacity the earlier messages left behind
+		return
+	}
+	d.ok, d.msg, d.m = true, reused, project(&reused)
+	return
+}
+
 func Run(args []string) *rep.Report {
 	fs := flag.NewFlagSet("c10", flag.ExitOnError)
 	file := fs.String("cases", "", "ndjson case table exported by TLC")
@@ -329,6 +348,11 @@ func Run(args []string) *rep.Report {
 		input := buf.Bytes()
 		d := decode(input)
 		execs++
+		if len(input) < 64<<10 {
+			if dr := decodeReused(input); dr.ok != d.ok || dr.panic != "" || (d.ok && !reflect.DeepEqual(dr.m, d.m)) {
+				bad("decode-depends-on-earlier-message", tc, fmt.Sprintf("into a fresh Message: ok=%v %+v; into a Message that had been decoded into before: ok=%v %+v %s %s", d.ok, d.m, dr.ok, dr.m, dr.err, dr.panic))
+			}
+		}
 		bound := uint64(3<<20 + 4*len(input))
 		switch {
 		case d.panic != "":
